@@ -272,6 +272,20 @@ def run_impl(case):
            "pow": [enc(math.pow(a, 1 / s.nb_all_pos)), enc(math.pow(a, 1 / s.nb_all_neg))],
            "ks": [enc(float(scipy.stats.ksone.ppf(1.0 - a / 2.0, s.nb_all_pos))), enc(float(scipy.stats.ksone.ppf(1.0 - a / 2.0, s.nb_all_neg)))],
            "tau": enc(tc.tau(dict(case, metric="topr")))}
+    if func == "roc_with_ci" and sp["type"] == "builtin" and len(t):
+        # the statement, re-composed from its parts under the same seed: bootstrap intervals of the joint metric
+        # (Scores.bootstrap_ci, C14), rule of three, envelope of the rectangles (the helpers are checked by the r3 / agg cases)
+        from score_analysis.roc_curve import _aggregate_rectangles, _apply_rule_of_three
+
+        def joint(_s):
+            return np.stack([_s.fnr(_s.threshold_at_fpr(fpr)), _s.fpr(_s.threshold_at_fnr(fnr))], axis=0)
+        np.random.seed(sp["seed"])
+        ji = s.bootstrap_ci(metric=joint, alpha=a, config=cfg)
+        f_ci = _apply_rule_of_three(p=fnr, ci=ji[0], alpha=a, n=s.nb_all_pos)
+        p_ci = _apply_rule_of_three(p=fpr, ci=ji[1], alpha=a, n=s.nb_all_neg)
+        want_fpr_band = _aggregate_rectangles(fnr, f_ci, p_ci)
+        want_fnr_band = _aggregate_rectangles(fpr, p_ci, f_ci)
+        out["recomposed"] = {"fnr_ci": _pairs(np.asarray(want_fnr_band, dtype=float)), "fpr_ci": _pairs(np.asarray(want_fpr_band, dtype=float))}
     if case.get("record"):
         out["samples"] = [{"pos": C15._encl(x.pos), "neg": C15._encl(x.neg), "ep": int(x.nb_easy_pos), "en": int(x.nb_easy_neg)} for x in samples]
     return out
@@ -435,6 +449,14 @@ def oracle(case, res):
             j = next(i for i in range(n) if r[nm][i] != r[nm + "_at"][i])
             fails.append((f"C16/rates-at-thresholds/{func}", f"curve.{nm}[{j}] = {r[nm][j]} but scores.{nm}(thresholds[{j}]) = {r[nm + '_at'][j]}"))
     bands = {"fnr_ci": r["fnr_ci"], "fpr_ci": r["fpr_ci"]}
+    if "recomposed" in r:
+        for nm in ("fnr_ci", "fpr_ci"):
+            if r["recomposed"][nm] != r[nm]:
+                j = next((i for i in range(min(len(r[nm]), len(r["recomposed"][nm]))) if r[nm][i] != r["recomposed"][nm][i]), 0)
+                fails.append((f"C16/band/recomposed/{func}", f"{nm}[{j}] = {r[nm][j]}; the envelope of the rule-of-three-corrected bootstrap "
+                              f"intervals of the joint metric (same seed, point estimate = the joint metric of the original object) is "
+                              f"{r['recomposed'][nm][j] if j < len(r['recomposed'][nm]) else None}"))
+                break
     for nm, rows in bands.items():
         for j, (a, b) in enumerate(rows):
             if a is None or b is None:
